@@ -627,7 +627,7 @@ func (e *Env) quantifier(kind string, n *ast.CallExpr) Value {
 	if !okH {
 		h, okH = e.x.simplifyWithPC(e.st, hi).Int64()
 	}
-	if okL && okH && h-l <= 300 {
+	if okL && okH && h-l <= 128 {
 		var cs []*Term
 		for i := l; i < h; i++ {
 			sub := e.sub(map[string]Value{id.Name: Scalar{IntC(i), intT}})
